@@ -270,3 +270,13 @@ Proof.
   destruct (IH w1 pi Hlen Hrest) as [Hlen2 Hs2].
   destruct (run_from w1 ops) as [w2 tr]. cbn [fst] in *. split; [exact Hlen2|]. rewrite Hs2. exact Hs.
 Qed.
+
+(* non-vacuity: a history on a built provider that never closes it *)
+Example singletons_fixed_example :
+  let r1 := mkReg 1 Singleton (FCtor false [] [9] false) 0 0 [] [] [9] [false] 0 in
+  let r2 := mkReg 2 Scoped (FCtor false [PDep (mkDep 9 0 0 false)] [1] false) 0 0 [] [] [1] [false] 0 in
+  let w := fst (run_from init_world [OAdd r1; OAdd r2; OBuild []]) in
+  let ops := [OCreateScope 0 0 0; OResolve 0 1 1 0; OResolve 0 0 9 0; OClose 0 1 []; OBuild []; OCloseProvider 1 []] in
+  0 < length (w_provs w) /\ Forall (fun o => not_own_close o 0) ops /\
+  singles (get_prov (fst (run_from w ops)) 0) = singles (get_prov w 0) /\ fst (singles (get_prov w 0)) <> [].
+Proof. vm_compute. repeat split; try lia; try discriminate. repeat constructor; discriminate. Qed.
